@@ -17,6 +17,8 @@ for log in sys.argv[1:]:
         prop, var = m.group(1), m.group(2)
         if 'seedout2' in d:
             var = {'a': 'c', 'b': 'd'}.get(var, var)          # second wave: <prop>_c, <prop>_d
+        if 'seedout3' in d:
+            var = {'a': 'e', 'b': 'f'}.get(var, var)          # third wave: <prop>_e, <prop>_f
         name = f'{prop}_{var}'
         dst = os.path.join('/verif/seeded', name)
         os.makedirs(dst, exist_ok=True)
